@@ -1042,11 +1042,15 @@ Qed.
 Lemma nice_unskipped h subs : nice h subs = true -> h_kind h <> KSlice -> forallb leaf_plain subs = true.
 Proof.
   intros H K. destruct (ukind_of (h_kind h)) eqn:U.
-  - destruct (h_kind h) eqn:K0; try discriminate U; [congruence|]. destruct (nice_json h subs H K0) as [-> _]. reflexivity.
+  - assert (K0 : h_kind h = KJson) by (destruct (h_kind h); try discriminate U; reflexivity).
+    destruct (nice_json h subs H K0) as [-> _]. reflexivity.
+  - exfalso. apply K. destruct (h_kind h); try discriminate U; reflexivity.
   - destruct (nice_fn h subs H U) as [_ ->]. reflexivity.
   - exact (nice_generic h subs H U).
 Qed.
-Lemma nothing_kinds k : ukind_of k = UNothing -> k = KJson \/ k = KSlice.
+Lemma nothing_kinds k : ukind_of k = UNothing -> k = KJson.
+Proof. destruct k; intros H; try discriminate H; auto. Qed.
+Lemma own_kinds k : ukind_of k = UOwn -> k = KSlice.
 Proof. destruct k; intros H; try discriminate H; auto. Qed.
 
 Lemma concat_res_ok {A} (l : list (res (list A))) : Forall (fun r => exists u, r = Ok u) l -> exists u, concat_res l = Ok u.
@@ -1084,7 +1088,9 @@ Section Audit.
   Proof.
     induction k as [|k IH]; intros n Hs Hf Hl fuel path Hle; [destruct Hf|].
     destruct fuel as [|fuel]; [lia|]. destruct n as [h subs|sl i|sl l]; cbn [unsafe_g]; cbn [fits] in Hf.
-    - pose proof (Hnice h subs Hs) as Hn. destruct (ukind_of (h_kind h)) eqn:U; [eauto| |].
+    - pose proof (Hnice h subs Hs) as Hn. destruct (ukind_of (h_kind h)) eqn:U; [eauto| | |].
+      + (* SliceNode: the header's own name, which is text in a dumped tree *)
+        exact (own_unsafe_ok h subs Hn).
       + destruct (nice_fn _ _ Hn U) as [K _]. destruct (nice_hstr _ _ Hn) as [c [m [Hc Hm]]].
         unfold fn_unsafe, function_name. rewrite K, Hc, Hm. cbn [jfmt bind]. destruct (mem _ _); eauto.
       + destruct (on_path h path); [eauto|]. destruct (own_unsafe_ok h subs Hn) as [own ->]. cbn [bind].
@@ -1177,7 +1183,8 @@ Section WalkTotal.
     intros Hs Hf Hle Hp Hk Hu c Hc. pose proof (Hnice h subs Hs) as Hn.
     destruct k as [|k]; [destruct Hf|]. destruct f as [|f]; [lia|]. exists f. split; [reflexivity|].
     cbn [unsafe_g] in Hu. destruct (ukind_of (h_kind h)) eqn:U.
-    - destruct (nothing_kinds _ U) as [K|K]; [|congruence]. destruct (nice_json _ _ Hn K) as [-> _]. destruct Hc.
+    - pose proof (nothing_kinds _ U) as K. destruct (nice_json _ _ Hn K) as [-> _]. destruct Hc.
+    - exfalso. apply Hk. apply own_kinds. exact U.
     - destruct (nice_fn _ _ Hn U) as [_ ->]. destruct Hc.
     - rewrite (Hp h subs (reach_refl _ _)) in Hu. destruct (own_unsafe E T h) as [own|]; [|discriminate Hu]. cbn [bind] in Hu.
       destruct (concat_res _) as [rest|] eqn:C; [|discriminate Hu]. cbn [bind] in Hu. injection Hu as Hu.
